@@ -24,11 +24,27 @@ def _diag(sig):
     return sig.get("diag") or {}
 
 
+EFFECT_CHECKED_OPS = {
+    # operations whose acceptance rests on exo's effect analysis (new_eff.py) or on
+    # name-based read/write sets, both of which do not see through WindowStmt aliases
+    "reorder_stmts", "fission", "autofission", "fuse", "remove_loop", "add_loop", "lift_scope", "reorder_loops",
+    "inline_assign", "merge_writes", "split_write", "fold_into_reduce", "stage_mem", "delete_buffer", "reuse_buffer",
+    "lift_alloc", "sink_alloc", "autolift_alloc", "expand_dim", "resize_dim", "divide_dim", "mult_dim", "rearrange_dim",
+    "unroll_buffer", "bind_expr", "parallelize_loop", "divide_with_recompute", "lift_reduce_constant", "inline_window",
+    "extract_subproc", "specialize", "add_unsafe_guard", "bind_config", "write_config", "delete_config", "call_eqv",
+    "eliminate_dead_code", "replace", "inline",
+}
+
+
 def window_alias_effects(sig, case):
     """exo's effect analysis attributes accesses made through a WindowStmt alias to the
     alias name and treats a WindowStmt as no binder; any effect-based safety check is
     then blind when one buffer is live under two names (with a write)"""
-    return bool(_diag(sig).get("live_window_alias")) and sig.get("monitor") in ("equiv", "safety", "validate", "simplify-trace", "validate-subproc")
+    return (
+        bool(_diag(sig).get("live_window_alias"))
+        and sig.get("op") in EFFECT_CHECKED_OPS
+        and sig.get("monitor") in ("equiv", "safety", "validate", "validate-subproc")
+    )
 
 
 def fission_assign_then_reduce(sig, case):
@@ -56,3 +72,18 @@ def stage_mem_partial_write_no_load(sig, case):
 def c05_unify_ignores_asserts(sig, case):
     """Unification does not check the callee's assertions (TODO 'Asserts' in LoopIR_unification.py)"""
     return sig.get("monitor") == "replace" and sig.get("variant") == "strict" and sig.get("kind") == "event:call_pred"
+
+
+# ---------------------------------------------------------------- C03
+def c03_window_stmt_unchecked(sig, case):
+    """CheckBounds does not cover window statements: neither the formation of
+    `w = x[lo:hi, pt]` (interval / point outside the extent) nor reads, writes and
+    reduces made through the alias w are bounds-checked"""
+    d = _diag(sig)
+    return sig.get("monitor") == "ir-sanitizer" and sig.get("kind") == "oob" and (d.get("through_window_stmt") or d.get("window_stmt_rhs"))
+
+
+def c03_read_inside_extern_arg(sig, case):
+    """a read that is an argument of an extern call (relu(y[k+1])) is not bounds-checked"""
+    d = _diag(sig)
+    return sig.get("monitor") == "ir-sanitizer" and sig.get("kind") == "oob" and d.get("inside_extern_arg") and not d.get("through_window_stmt")
